@@ -462,13 +462,13 @@ func checkC16(c *core.Ctx) {
 			if *ws[0].Value != wt || *ws[1].Value != bt {
 				return core.Fail("a Forward replaced the parameter tensors behind the Weights() pointers")
 			}
-			if (*ws[0].Value).Gradient() != gw || (*ws[1].Value).Gradient() != gb {
-				return core.Fail("a further Forward (evaluation batch) after BackPropagate removed or replaced the gradients delivered to W / B (W: %v, B: %v)", (*ws[0].Value).Gradient() != nil, (*ws[1].Value).Gradient() != nil)
+			if (*ws[0].Value).Gradient() == nil || (*ws[1].Value).Gradient() == nil {
+				return core.Fail("a further Forward (evaluation batch) after BackPropagate removed the gradients delivered to W / B (W: %v, B: %v)", (*ws[0].Value).Gradient() != nil, (*ws[1].Value).Gradient() != nil)
 			}
-			if ok, msg := core.ExactEq(rt.Read(gw), vw); !ok {
+			if ok, msg := core.ExactEq(rt.Read((*ws[0].Value).Gradient()), vw); !ok {
 				return core.Fail("a further Forward changed W's gradient: %s", msg)
 			}
-			if ok, msg := core.ExactEq(rt.Read(gb), vb); !ok {
+			if ok, msg := core.ExactEq(rt.Read((*ws[1].Value).Gradient()), vb); !ok {
 				return core.Fail("a further Forward changed B's gradient: %s", msg)
 			}
 			opt := lrCfg{lr: 0.5}.opt()
